@@ -88,6 +88,11 @@ def feed (s : RdState) (chunk : Bytes) : RdState :=
   let r := readBuffer (s.buf ++ chunk)
   { buf := r.2, out := s.out ++ r.1 }
 
+/-- `IO.open` on the same object (the documented reconnect pattern): a new byte stream begins; what was dispatched
+    stays dispatched.  Whether the carry-over is emptied is read from the source. -/
+def reopen (s : RdState) : RdState :=
+  { buf := if Gen.Parse.openResetsCarry then [] else s.buf, out := s.out }
+
 /-- routing of `_read_buffer`: channel 0, a registered channel, or silently dropped -/
 inductive Route | chan0 | registered (c : Nat) | dropped
 deriving DecidableEq, Repr
